@@ -9,8 +9,13 @@ from pytestarch.eval_structure.types import Import
 class ImporteeModuleCalculator:
     """Adds all parent modules of imported modules if they are not yet part of the modules list."""
 
-    def __init__(self, root_path: Path) -> None:
+    def __init__(
+        self, root_path: Path, internal_module_prefix: str | None = None
+    ) -> None:
         self._root_path = root_path
+        self._internal_module_prefix = (
+            internal_module_prefix.rstrip(".") if internal_module_prefix else None
+        )
 
     def calculate_importee_modules(
         self,
@@ -32,10 +37,22 @@ class ImporteeModuleCalculator:
         for imp in imports:
             importee = imp.importee()
 
+            if self._is_internal_name(importee) and importee not in extended_modules:
+                # "from . import bar" - bar is a function/class of an internal module and not a module itself
+                continue
+
             if str(self._root_path) not in importee:
                 extended_modules.update(self._calculate_parent_modules(imp))
 
         return list(extended_modules)
+
+    def _is_internal_name(self, name: str) -> bool:
+        prefix = self._internal_module_prefix
+
+        if prefix is None:
+            return False
+
+        return name == prefix or name.startswith(f"{prefix}.")
 
     def _calculate_parent_modules(self, imp: Import) -> set[str]:
         modules = {imp.importee()}
